@@ -534,6 +534,31 @@ where
         }
     };
 
+    // If the rest of the redirection fails, the saved FD is no longer needed.
+    match overwrite_target(env, redir, target_fd, xtrace).await {
+        Ok(exit_status) => {
+            let original = target_fd;
+            Ok((SavedFd { original, save }, exit_status))
+        }
+        Err(error) => {
+            if let Some(save) = save {
+                let _: Result<(), Errno> = env.system.close(save);
+            }
+            Err(error)
+        }
+    }
+}
+
+/// Opens the file etc. for the redirection and makes it `target_fd`.
+async fn overwrite_target<S>(
+    env: &mut Env<S>,
+    redir: &Redir,
+    target_fd: Fd,
+    xtrace: Option<&mut XTrace>,
+) -> Result<Option<ExitStatus>, Error>
+where
+    S: Runtime + 'static,
+{
     // Prepare an FD from the redirection body
     let (fd_spec, location, exit_status) = match &redir.body {
         RedirBody::Normal { operator, operand } => {
@@ -574,8 +599,7 @@ where
         let _: Result<(), Errno> = env.system.close(target_fd);
     }
 
-    let original = target_fd;
-    Ok((SavedFd { original, save }, exit_status))
+    Ok(exit_status)
 }
 
 /// `Env` wrapper for performing redirections.
